@@ -81,9 +81,16 @@ func TestC07(t *testing.T) {
 		cfg: func(rt *rapid.T, avoid map[string]bool) (dsl.GenCfg, int, dsl.ValCfg, bool) {
 			c, _, v, _ := defaultXCfg(rt, avoid)
 			c.Shapes = !avoid["shapes"] && rapid.IntRange(0, 2).Draw(rt, "shapes") > 0
+			if os.Getenv("VERIF_SHAPES") != "" {
+				c.Shapes = true
+			}
 			return c, 3, v, false
 		},
-		nontrivial: func(k xCase) bool { return len(k.Prog.Packets) >= 2 },
+		nontrivial: func(k xCase) bool {
+			f := k.Prog.Features()
+			composite := dsl.Has(f, "obj") || dsl.Has(f, "inline") || dsl.Has(f, "match") || dsl.Has(f, "repeat:obj") || dsl.Has(f, "repeat:inline")
+			return (len(k.Prog.Packets) >= 2 || composite) && dsl.Has(f, "shape:field")
+		},
 		assume:     []string{"the driver refers to members by the name used at their declaration site in each language (computed with the same strcase v0.3.0 conversions)"},
 	})
 }
